@@ -183,7 +183,9 @@ def check_keygen(ctx, F, b, kg, rows_by):
                     ex, ey = enc_of(byd[d], "compressed" if compress else "separate")
                     ok = bytes.fromhex(f["x"]) == ex and ((f["y"] == "-") if compress else (bytes.fromhex(f["y"]) == ey)) and int(f["size"]) == len(ex) and int(f["psize"]) == Bn
             if not ok:
-                F.add("%s:%s" % (fn, "private-key-not-admitted" if d not in byd else "public-key-is-not-dG"),
+                # one defect: ecdsa_key_gen ignores the status / infinity flag of d*G (visible with the binary multiplier): d = 0, Q = O "succeeds"
+                key = "ecdsa_key_gen:returns-private-key-0" if d == 0 else "%s:%s" % (fn, "private-key-not-admitted" if d not in byd else "public-key-is-not-dG")
+                F.add(key, fn + "\n" +
                       "build %s\ncase %s\n%s\nadmitted private keys %s" % (b.name, ln, a, item["ds"]), {"case": ln, "build": b.name})
     return n
 
@@ -487,6 +489,9 @@ def run(ctx):
         if "err" in cres: raise cres["err"]
         tier_c_finish(ctx, F, cres["st"])
     F.flush()
+    ctx.add(samples=["export E8C4 le 1 0 1 57", "import E13 be 02000f -", "impscan E8G be 04 2   (all 65536 strings 04 x y)", "impsep E13 le 0f00   (every second block)",
+                     "keygen E8M3 be 1 1 df", "pubkey E16M3 le 0 1 9ffe", "dh E8C4 be 1 0301 - 1f", "dhbn E13 0 f cde 1f98", "sign secp256r1 - be 1111..(35 octets) 01 07   (size edge, ASan)",
+                     "keygen brainpoolP384r1 le 0 1 <48 random octets>", "import secp521r1 be 03<x> -   (other root)", "dh secp112r2 le 1 <peer> - <priv>"])
     ctx.cov["builds"] = [b.name for b in builds]
     ctx.cov["rule"] = ("tier B: reachable states of KeyCodecGen under the slice in the .cfg files: one row per point of the whole group, one scan state per "
                        "(curve, order, validation, fixed octets) covering every value of the varying octets, one row per random value / private key; "
